@@ -805,7 +805,17 @@ def script_case(kind):
                 st.just(b"\x01" + idm + bytes.fromhex("00F0FFFFFFFFFFFF88B4")),
                 st.just(b"\x01" + idm + bytes.fromhex("00F1FFFFFFFFFFFF12FC")),
                 st.just(b"\x01" + idm + bytes.fromhex("0120FFFFFFFFFFFF0003")),
-                st.just(b"\x01" + idm + bytes.fromhex("01E0FFFFFFFFFFFFFEE1")))})
+                st.just(b"\x01" + idm + bytes.fromhex("01E0FFFFFFFFFFFFFEE1")),
+                # every FeliCa product family by its IC code (PMm byte 2),
+                # discovered without / with another / with the NDEF system
+                st.tuples(st.sampled_from([0x00, 0x01, 0x02, 0x08, 0x09, 0x0B,
+                                           0x0C, 0x0D, 0x20, 0x32, 0x35, 0x06,
+                                           0x07, 0x10, 0x14, 0x1F, 0xE0, 0xE1,
+                                           0xF0, 0xF1, 0x36, 0xFF]),
+                          st.sampled_from([b"", b"", b"\x80\x08", b"\x00\x03",
+                                           b"\x12\xFC"])).map(
+                    lambda t: b"\x01" + idm + bytes([0x01, t[0]])
+                    + bytes.fromhex("220427674EFF") + t[1]))})
         ans = t3_frame(idm)
     elif kind == "t4a":
         attrs = st.fixed_dictionaries({
@@ -823,9 +833,34 @@ def script_case(kind):
     first = ats() if kind == "t4a" else (
         st.one_of(st.just(b"\x00"), st.binary(max_size=3))
         if kind == "t4b" else ans)
+    answers = st.lists(ans, max_size=14)
+    if kind == "t3t":
+        # the usual course of an NDEF read: the card is polled for the NDEF
+        # system (it may answer with another PMm than at discovery), then it
+        # serves a well-formed attribute block, then anything
+        pmm = st.sampled_from([0x01, 0x0D, 0x20, 0x36, 0xFF, 0x21, 0x10, 0xF0,
+                               0xE0, 0x00]).map(
+            lambda c: bytes([0x01, c]) + bytes.fromhex("220427674EFF"))
+        poll = st.tuples(pmm, st.sampled_from([b"", b"", b"\x12\xFC"])).map(
+            lambda t: bytes([2 + 8 + len(t[0] + t[1]), 0x01]) + idm + t[0]
+            + t[1])
+        attr_ok = st.tuples(
+            st.sampled_from([1, 4, 12]), st.sampled_from([1, 8]),
+            st.sampled_from([1, 13, 300]), st.sampled_from([0, 5, 16, 40])
+        ).map(lambda t: bytes([13 + 16, 0x07]) + idm + b"\x00\x00\x01"
+              + bytes(simtags.t3_attribute(0x10, t[0], t[1], t[2], 0, 1,
+                                           min(t[3], 16 * t[2]))))
+        course = st.tuples(poll, attr_ok, st.lists(ans, max_size=8))
+        plain = st.fixed_dictionaries({
+            "kind": st.just(kind), "attrs": attrs, "first": first,
+            "answers": answers,
+            "tail": st.sampled_from(["silent", "repeat"])})
+        return st.one_of(plain, plain, st.tuples(plain, course).map(
+            lambda t: dict(t[0], first=t[1][0],
+                           answers=[t[1][1]] + t[1][2])))
     return st.fixed_dictionaries({
         "kind": st.just(kind), "attrs": attrs, "first": first,
-        "answers": st.lists(ans, max_size=14),
+        "answers": answers,
         "tail": st.sampled_from(["silent", "repeat"])})
 
 
@@ -873,7 +908,14 @@ def t3_frame(idm):
         return bytes([ln]) + f
     # polling responses: PMm, then no / the two / other request data bytes
     poll = st.tuples(st.just(0x01), idm_s, st.tuples(
-        st.sampled_from([bytes.fromhex("0120220427674EFF"), bytes(8)]),
+        # (the card may answer a later poll with another PMm: the IC code
+        # of another product, of none)
+        st.one_of(st.sampled_from([bytes.fromhex("0120220427674EFF"),
+                                   bytes(8)]),
+                  st.sampled_from([0x01, 0x0D, 0x20, 0x36, 0xFF, 0x21, 0x10,
+                                   0xF0, 0xE0]).map(
+                      lambda c: bytes([0x01, c])
+                      + bytes.fromhex("220427674EFF"))),
         st.sampled_from([b"", b"", b"\x12\xFC", b"\x00\x01", b"\x00",
                          b"\x12\xFC\x00"])).map(lambda t: t[0] + t[1]),
         st.just(True)).map(mk)
